@@ -11,6 +11,7 @@ dt_is_valid, dt_validate, report, via_flips, violations <n>   — values `ok` or
 import DelaunayModel.Model.ProtoCx
 import DelaunayModel.Model.Judge
 import DelaunayModel.Model.Flip
+import DelaunayModel.Model.Cavity
 open DM
 
 structure Res where
@@ -198,6 +199,27 @@ def runCx (c : Case) : Res :=
           if !(want.all post.contains && post.all want.contains && want.length == post.length) then
             bad := s!"cells after the flip differ from the bistellar move R={R} I={I} applied to the previous cells (FlipInfo / edit mismatch)" :: bad
       | _, _, _ => pure ()
+      -- ---------- C02 K1: a successful insertion is a cavity / hull step of the model
+      -- cav <new vertex id> repair=<0|1> attempts=<n|-> removed=<n|-> <cells before>
+      match c.ob "cav" with
+      | some [vS, repS, _attS, remS, preS] =>
+        let nums (t : String) : List Nat := (t.splitOn ",").filterMap String.toNat?
+        match vS.toNat? with
+        | some v =>
+          let pre := ((preS.splitOn ";").filter (· ≠ "")).map (fun t => sortNat (nums t))
+          let post := K.cells.map cellKey
+          match cavityStepProblem pre post v with
+          | none => stats := "cx.cavity.legal_step" :: stats
+          | some why =>
+            -- a flip repair after the insertion, or the local facet repair, edits cells beyond the
+            -- cavity: no claim there; with repair Never and no cell removed by local repair the
+            -- insertion must be exactly one cavity / hull step
+            if repS == "repair=1" then stats := "cx.cavity.other_after_flip_repair" :: stats
+            else if remS == "removed=0" then
+              dis := s!"insertion under repair policy Never, no cells removed by local repair: the cell sets before/after are not a cavity or hull-extension step of the model ({why.take 300})" :: dis
+            else stats := "cx.cavity.other_local_repair_or_unknown" :: stats
+        | none => pure ()
+      | _ => pure ()
       -- harness-side observations that must simply be 1 (computed on the Rust side from fingerprints)
       -- C13 "further insertions give the same result": the Delaunay triangulation is only unique
       -- FOR THE FLOATING-POINT PREDICATES where every orientation and in-sphere sign of the final
